@@ -2,6 +2,8 @@
 
 from __future__ import annotations
 
+import ast
+
 from typing import Any
 from typing import Dict
 from typing import List
@@ -16,6 +18,7 @@ from ..harness import make_node
 from ..harness import paths
 from ..model import AnalysisError
 from ..model import Model
+from ..model import walk_own
 from ..numeric import Lin
 from ..protocol import Report
 from ._sel import *  # noqa: F403
@@ -215,6 +218,9 @@ def check_visit(model: Model, report: Report, rule_order: str, rule_depth: Optio
     if len(params) < 3:
         _check_visit_without_depth(model, report, rule_depth or rule_order, fn)
         return
+    if any(isinstance(n, ast.While) for n in walk_own(fn.node)):
+        _check_visit_tail_loop(model, report, rule_order, rule_depth, fn)
+        return
     # parameters beyond (self, node, depth) are handed down by the recursion: a generic call below the start node
     # receives whatever earlier levels left in them, so each cell is also run with those parameters unknown
     extra = params[3:]
@@ -262,6 +268,148 @@ def check_visit(model: Model, report: Report, rule_order: str, rule_depth: Optio
                 report.ok(rule_order, fn.qualname, cell, detail={"paths": len(runs)})
                 if rule_depth:
                     report.ok(rule_depth, fn.qualname, cell, detail={"paths": len(runs)})
+    report.touched(fn.qualname)
+
+
+def _check_visit_tail_loop(model: Model, report: Report, rule_order: str, rule_depth: Optional[str], fn: Any) -> None:
+    """The visitor descends by a `while` loop that rebinds (node, depth) - a tail call written as a loop - next to or
+    instead of recursion.  Decided by induction over the loop: ONE generic iteration is interpreted from the state in
+    which the loop head is first reached (every path, recursion cut), with no assumption relating depth and limit,
+    and four obligations are checked *at the program points themselves* (the octagon holds the path condition there):
+
+      yield      a node is handed out only where the path condition entails depth <= env.max_recursion_depth for
+                 the depth variable as it stands at that point, and the node is the current `node`;
+      recursion  a recursive call is made on a child of the node with depth + 1;
+      step       at the end of the iteration the rebound node is a child of the node at the head and the rebound
+                 depth is the head's depth + 1;
+      invariant  what the octagon knew about depth and limit at the head (the guard already passed, or nothing)
+                 holds again for the rebound depth.
+
+    Only the depth discipline (C18) is decided this way; the order of the nodes (C01) is not."""
+    if rule_depth is None:
+        report.undecided(rule_order, fn.qualname, "visit: the visitor descends by a while loop; the order of the nodes it yields is not decided for this shape")
+        report.touched(fn.qualname)
+        return
+    params = [a.arg for a in fn.node.args.args]
+    pn, pd = params[1], params[2]
+    problems: Dict[str, str] = {}
+    notes: List[str] = []
+    n_paths = 0
+    n_points = 0
+
+    def is_child(x: Any, parent: Any) -> bool:
+        if not (isinstance(x, Inst) and isinstance(parent, Inst)) or x is parent:
+            return False
+        loc = x.attrs.get("location")
+        return isinstance(loc, Term) and loc.op == "add" and loc.args[0] is parent.attrs.get("location") and isinstance(loc.args[1], PyTuple) and len(loc.args[1].items) == 1
+
+    for kind in ("list", "dict"):
+
+        def body(it: Interp, kind=kind) -> Any:
+            nonlocal n_points
+            env = make_env(it, model, False)
+            seg = make_segment(it, model, "segments.JSONPathRecursiveDescentSegment", env)
+            v = it.new_sym("V", [kind])
+            node = make_node(it, model, v, "node")
+            depth = it.new_int("depth", 1)
+            limit = env.attrs["max_recursion_depth"].lin
+            found: List[Tuple[str, str]] = []
+            head: Dict[str, Any] = {}
+
+            def within(d: Any) -> bool:
+                return isinstance(d, IntV) and bool(it.ctx.oct.entails_le0(d.lin - limit))
+
+            def on_yield(interp: Interp, val: Any, fr: Any, n: Any) -> None:
+                nonlocal n_points
+                if fr.fi is not fn:
+                    return
+                n_points += 1
+                cur_n, cur_d = fr.locals.get(pn), fr.locals.get(pd)
+                if val is not cur_n:
+                    found.append(("yield-other", f"line {n.lineno}: yields {describe(val)!r}, which is not the current node"))
+                elif not within(cur_d):
+                    found.append(("yield-unguarded", f"line {n.lineno}: a node is yielded at depth {describe(cur_d)!r} on a path that does not establish depth <= env.max_recursion_depth for it (no guard was evaluated for this depth): data nested deeper than the limit is visited instead of raising JSONPathRecursionError"))
+
+            def at_head(interp: Interp, fr: Any, st: Any) -> None:
+                head["node"], head["depth"] = fr.locals.get(pn), fr.locals.get(pd)
+                head["guarded"] = within(fr.locals.get(pd))
+
+            def at_tail(interp: Interp, fr: Any, st: Any) -> None:
+                nonlocal n_points
+                n_points += 1
+                n2, d2 = fr.locals.get(pn), fr.locals.get(pd)
+                n1, d1 = head.get("node"), head.get("depth")
+                if n2 is n1 and isinstance(d2, IntV) and isinstance(d1, IntV) and d2.lin == d1.lin:
+                    found.append(("step-none", f"line {st.lineno}: an iteration ends without moving to another node: the loop does not terminate"))
+                    return
+                if not is_child(n2, n1):
+                    found.append(("?step-node", f"the node the loop continues with ({describe(n2)!r}) is not recognisably a child of the node at the loop head"))
+                    return
+                if not (isinstance(d2, IntV) and isinstance(d1, IntV) and d2.lin == d1.lin + Lin.k(1)):
+                    found.append(("step-depth", f"line {st.lineno}: the loop continues with a child of the node but with depth {describe(d2)!r}, expected depth + 1 (one level per container)"))
+                if head.get("guarded") and not within(d2):
+                    found.append(("invariant", f"line {st.lineno}: at the loop head the guard has been passed for the node's depth, but the loop continues with depth {describe(d2)!r} for which no guard was evaluated: the next iteration handles a node beyond the limit as if it were within it"))
+
+            it.hooks["__recursion_cut__"] = {fn.qualname}
+            it.hooks["__while_once__"] = {fn.qualname}
+            it.hooks["__on_yield__"] = on_yield
+            it.hooks["__while_head__"] = at_head
+            it.hooks["__while_tail__"] = at_tail
+            ev, term = run_trace(it, fn, [seg, node, depth], seg)
+            return ev, term, node, depth, found, head, it
+
+        try:
+            runs = paths(model, body)
+        except Unsupported as err:
+            report.undecided(rule_order, fn.qualname, f"visit:{kind}:tail-loop: {err}")
+            report.touched(fn.qualname)
+            return
+        for run in runs:
+            n_paths += 1
+            if run.kind == "raise":
+                problems.setdefault("raises-outside", f"raises {run.exc_name()} outside the iterator")
+                continue
+            ev, term, node, depth, found, head, it = run.value
+            for key, msg in found:
+                if key.startswith("?"):
+                    notes.append(msg)
+                else:
+                    problems.setdefault(key, msg)
+            if term is not None and getattr(term, "exc", None) is not None:
+                exc = term.exc
+                if not (isinstance(exc, Inst) and exc.cls.name == "JSONPathRecursionError"):
+                    problems.setdefault("raise-class", f"raises {describe(exc)!r}, expected JSONPathRecursionError")
+            # recursive calls: a child of the node at the head (or of the start node) with that node's depth + 1
+            def walk(evs: Any) -> Any:
+                for e in evs:
+                    yield e
+                    if e.kind == "foreach":
+                        yield from walk(e.body)
+
+            for e in walk(ev):
+                if e.kind != "yield_from":
+                    continue
+                t = e.value
+                if not (isinstance(t, Term) and t.op == "rec" and t.args[0] == fn.qualname):
+                    continue
+                loc = t.args[1]
+                cn, cd = loc.get(pn), loc.get(pd)
+                base_n, base_d = (head.get("node"), head.get("depth")) if head else (node, depth)
+                for bn, bd in ((base_n, base_d), (node, depth)):
+                    if is_child(cn, bn):
+                        if not (isinstance(cd, IntV) and isinstance(bd, IntV) and cd.lin == bd.lin + Lin.k(1)):
+                            problems.setdefault("recursion-depth", f"line {e.site[1] if e.site else '?'}: a recursive call visits a child of the node with depth {describe(cd)!r}, expected depth + 1 (one level per container)")
+                        break
+                else:
+                    notes.append(f"a recursive call is made on {describe(cn)!r}, which is not recognisably a child of the current node")
+    for key, msg in problems.items():
+        rule = rule_depth if key in ("yield-unguarded", "invariant", "raise-class") else rule_order
+        report.fail(rule, fn.qualname, f"visit:tail-loop:{key}", msg, file=fn.file, line=fn.line)
+    if notes and not problems:
+        report.undecided(rule_order, fn.qualname, "visit:tail-loop: " + notes[0])
+    elif not problems:
+        report.ok(rule_order, fn.qualname, "visit:tail-loop: step and recursion add one depth unit per level", detail={"paths": n_paths, "points": n_points})
+        report.ok(rule_depth, fn.qualname, "visit:tail-loop: every yield is dominated by the guard for its own depth; the loop invariant is re-established", detail={"paths": n_paths})
     report.touched(fn.qualname)
 
 
